@@ -35,18 +35,39 @@ def log(*a):
     print("[check]", *a, file=sys.stderr, flush=True)
 
 
+SH_KEEP = 16 << 20       # bytes of stdout / stderr kept (the tail)
+SH_FSIZE = 1 << 30       # RLIMIT_FSIZE of the child: a runaway writer is stopped by SIGXFSZ
+
+
 def sh(cmd, cwd=None, timeout=None, env=None, input=None):
+    """Run a command; -> (rc, stdout, stderr, seconds).  stdout and stderr go to temporary files (not pipes held
+    in memory: a worker thread spinning on an error! line once made a check take 56 GB) of which the last
+    SH_KEEP bytes are returned; files the child writes are capped at SH_FSIZE."""
+    import resource, tempfile
     e = dict(os.environ)
     if env:
         e.update(env)
     t0 = time.time()
-    try:
-        p = subprocess.run(cmd, cwd=cwd, env=e, input=input, capture_output=True, text=True,
-                           timeout=timeout, shell=isinstance(cmd, str))
-        return p.returncode, p.stdout, p.stderr, time.time() - t0
-    except subprocess.TimeoutExpired as ex:
-        return 124, (ex.stdout or b"").decode() if isinstance(ex.stdout, bytes) else (ex.stdout or ""), \
-            "TIMEOUT after %ss" % timeout, time.time() - t0
+
+    def limits():
+        try:
+            resource.setrlimit(resource.RLIMIT_FSIZE, (SH_FSIZE, SH_FSIZE))
+        except (ValueError, OSError):
+            pass
+
+    def tail(f):
+        f.flush()
+        size = f.seek(0, 2)
+        f.seek(max(0, size - SH_KEEP))
+        return f.read().decode(errors="replace")
+
+    with tempfile.TemporaryFile() as fo, tempfile.TemporaryFile() as fe:
+        try:
+            p = subprocess.run(cmd, cwd=cwd, env=e, input=input.encode() if isinstance(input, str) else input,
+                               stdout=fo, stderr=fe, timeout=timeout, shell=isinstance(cmd, str), preexec_fn=limits)
+            return p.returncode, tail(fo), tail(fe), time.time() - t0
+        except subprocess.TimeoutExpired:
+            return 124, tail(fo), "TIMEOUT after %ss\n%s" % (timeout, tail(fe)[-2000:]), time.time() - t0
 
 
 class Lock:
